@@ -80,6 +80,14 @@ func (vm *VotingMachine) CollectVote(vote hotstuff.VoteMsg) {
 		vm.logger.Info("block too old")
 		return
 	}
+
+	// A vote is the signature of exactly one replica. A certificate that carries several
+	// signatures (e.g. the sender's own and a replayed one of another replica) verifies, but it
+	// overlaps with that replica's own vote when the QC is created, and no QC could ever be formed.
+	if sig := cert.Signature(); sig == nil || sig.Participants().Len() != 1 {
+		vm.logger.Infof("CollectVote(from %d): vote is not a single signature", vote.ID)
+		return
+	}
 	if vm.config.SyncVerification() {
 		vm.verifyCert(cert, block)
 	} else {
